@@ -476,7 +476,7 @@ def run(prog, R):
                         R.add('PAR-5', pb, 'returns-current-and-received-output', ok0 and ok1 and pb.cfg.dominates(b, blk.idx),
                               site(pb, s.line), 'Ok((%s, %s))' % ('; '.join(x.describe() for x in r0), '; '.join(x.describe() + str(x.fields) for x in r1)))
         if not found:
-            R.add('PAR-5', pb, 'returns-current-and-received-output', False, site(pb, t.line), 'no Ok((set, out)) return found')
+            R.undecided('PAR-5', pb, 'returns-current-and-received-output', site(pb, t.line), 'no Ok((set, out)) aggregate found in this shape of next(): not judged')
 
     # PAR-5b: the receive dominates every return of next(): it cannot end the stream on its own
     recv_blocks = [x for x, t in find_call(cx.prn, 'std::sync::mpsc::Receiver::recv')]
@@ -681,9 +681,31 @@ def run(prog, R):
                         if pl.local == t.dest.local and [q for q in pl.proj if q['k'] == 'downcast' and q['variant'] == 'Some'] \
                                 and len([q for q in pl.proj if q['k'] == 'field']) == 1:
                             items.append(st.place.local)
-            whole = bool(items) and all(propagates(body, l)[0] for l in items)
+            # ... or the Err payload is taken out in place by a pattern (`Some(Err(e)) => return Err(E::from(e))`)
+            errs = []
+            for x in body.cfg.reachable:
+                for st in body.blocks[x].stmts:
+                    if st.k == 'assign' and st.rv.k == 'use' and not st.rv.ops[0].is_const and st.place.is_local():
+                        pl = st.rv.ops[0].place
+                        vs = [q['variant'] for q in pl.proj if q['k'] == 'downcast']
+                        if pl.local == t.dest.local and vs[:2] == ['Some', 'Err'] and len(vs) == 2:
+                            errs.append(st.place.local)
+            # the Ok payload is taken out by a pattern but the Err payload is never looked at (`while let Some(Ok(x)) = next()`):
+            # an Err item ends the loop silently - recognised, and wrong
+            oks = []
+            for x in body.cfg.reachable:
+                for st in body.blocks[x].stmts:
+                    if st.k == 'assign' and not st.place.proj:
+                        pls = [o.place for o in st.rv.ops if not o.is_const] + ([st.rv.place] if st.rv.place is not None else [])
+                        for pl in pls:
+                            vs = [q['variant'] for q in pl.proj if q['k'] == 'downcast']
+                            if pl.local == t.dest.local and vs[:2] == ['Some', 'Ok']:
+                                oks.append(st.place.local)
+            whole = (bool(items) and all(propagates(body, l)[0] for l in items)) or (not items and bool(errs) and all(propagates(body, l)[0] for l in errs))
             R.add('PAR-12', body, 'item-propagated', whole, site(body, t.line),
-                  'the Result item of ParallelRecordsets::next is handed on to the caller as a whole on its Err side (an Err item cannot end the loop silently): %s' % whole)
+                  'the Result item of ParallelRecordsets::next is handed on to the caller on its Err side (an Err item cannot end the loop silently): %s%s' % (
+                      whole, '; the Ok payload is matched in place and the Err payload is never read' if (oks and not items and not errs) else ''),
+                  undecided=not items and not errs and not oks)
             # a Result computed by the worker (second component of the Ok payload)
             for li, ty in enumerate(body.local_tys):
                 if ty.startswith('std::result::Result<') and li > body.arg_count:
@@ -732,6 +754,20 @@ def par4(prog, R, cx):
             if c is not None and find_call(c, 'std::iter::Iterator::zip'):
                 consumers.append(c)
     for w in workers:
+        # obligation independent of the loop shapes: every loop of the worker that steps through records hands each record to the
+        # user's work function (mutation survey: deleting one of the two calls passes the suite, whose output type is ())
+        nloop = 0
+        for h, blks in sorted(w.cfg.natural_loops().items()):
+            steps = [x for x in blks if w.blocks[x].term.k == 'call' and w.blocks[x].term.callee and w.blocks[x].term.callee.path == 'std::iter::Iterator::next']
+            if not steps:
+                continue
+            nloop += 1
+            works = [x for x in blks if w.blocks[x].term.k == 'call' and w.blocks[x].term.callee and w.blocks[x].term.callee.path in ('std::ops::Fn::call', 'std::ops::FnMut::call_mut')]
+            inner = [h2 for h2, b2 in w.cfg.natural_loops().items() if h2 != h and h2 in blks]
+            if inner and not works:
+                continue     # an outer loop: judged at its inner loops
+            R.add('PAR-4', w, 'record-loop-calls-the-work-function#%d' % nloop, bool(works), site(w, w.blocks[steps[0]].term.line),
+                  'the loop stepping an iterator at line %s %s the work function' % (w.blocks[steps[0]].term.line, 'calls' if works else 'never calls'))
         zips = find_call(w, 'std::iter::Iterator::zip')
         if len(zips) != 1:
             R.undecided('PAR-4', w, 'shape', site(w, w.span['lo']), 'expected one zip in the worker')
